@@ -106,11 +106,9 @@ Lemma hazard_parts : forall s c, hazard s (Call c) = false ->
      match dst s with
      | DOk _ _ v r vid => v = c_wver c /\ r = c_rmax c /\ vid = c_vid c
      | _ => False
-     end) /\
-  (reuses_dst s c = true -> forall i g, ibs s = Some i -> c_geom c = Some g -> i = g).
+     end).
 Proof.
   intros s c H. cbn [hazard] in H.
-  apply orb_false_iff in H. destruct H as [H H5].
   apply orb_false_iff in H. destruct H as [H H4].
   apply orb_false_iff in H. destruct H as [H H3].
   apply orb_false_iff in H. destruct H as [H1 H2].
@@ -120,26 +118,21 @@ Proof.
     destruct (dst s); try discriminate.
     apply andb_true_iff in H4. destruct H4 as [H4 H6]. apply andb_true_iff in H4. destruct H4 as [H4 H7].
     apply Nat.eqb_eq in H4. apply Nat.eqb_eq in H6. apply Nat.eqb_eq in H7. auto.
-  - intros Hr i g Hi Hg. rewrite Hr, Hi, Hg in H5. cbn [andb] in H5. apply negb_false_iff in H5.
-    destruct i as [[a b] c0], g as [[a' b'] c']. cbn [geom_eqb] in H5.
-    apply andb_true_iff in H5. destruct H5 as [H5 H8]. apply andb_true_iff in H5. destruct H5 as [H5 H9].
-    apply Nat.eqb_eq in H5. apply Nat.eqb_eq in H8. apply Nat.eqb_eq in H9. subst. reflexivity.
 Qed.
 
 Lemma profiles_good : forall s c s1 r,
   Inv s -> hazard s (Call c) = false -> profiles s c = (s1, r) ->
   r = Ret (c_pid c, c_wver c, c_rmax c, c_vid c) /\ Inv s1 /\
-  dst_vid (dst s1) = Some (c_vid c) /\ gdir s1 = gdir s /\ dk s1 = dk s /\
-  (forall i g, ibs s1 = Some i -> c_geom c = Some g -> i = g).
+  dst_vid (dst s1) = Some (c_vid c) /\ gdir s1 = gdir s /\ dk s1 = dk s.
 Proof.
   intros s c s1 r [HD HB] Hz Hp.
-  destruct (hazard_parts _ _ Hz) as (Hf & _ & _ & Hre & Hib).
+  destruct (hazard_parts _ _ Hz) as (Hf & _ & _ & Hre).
   unfold profiles in Hp. unfold reuses_dst in *.
   destruct (dst s) as [| |p w v rm vid] eqn:Ed.
   - (* no object yet *)
     unfold InvD in HD. rewrite Ed in HD. rewrite HD in Hp. cbn [opt_eqb andb] in Hp.
     rewrite Hf in Hp. inversion Hp; subst. split; auto.
-    split; [|repeat split; auto; cbn [ibs set_profiles]; discriminate].
+    split; [|repeat split; auto].
     split.
     + unfold InvD, set_profiles. cbn. auto.
     + unfold set_profiles. cbn [dst dst_vid bs_prm bs tri_full trf tri_prm tri dk]. cbn [dst_vid opt_eqb negb].
@@ -159,7 +152,7 @@ Proof.
       inversion Hp; subst. split; auto. split; [split; auto; unfold InvD; rewrite Ed; auto|].
       rewrite ?Ed. cbn [dst_vid]. repeat split; auto.
     + rewrite Hf in Hp. inversion Hp; subst. split; auto.
-      split; [|repeat split; auto; cbn [ibs set_profiles]; discriminate].
+      split; [|repeat split; auto].
       split.
       * unfold InvD, set_profiles. cbn. auto.
       * unfold set_profiles. cbn [dst dst_vid bs_prm bs tri_full trf tri_prm tri dk].
@@ -271,7 +264,8 @@ Proof.
   intros s1 nb b rmax order odd fwd reg vid g dir s2 r ov HI Hbs Hb Hnb Hov Hvid Hreg Hw Hf.
   subst vid. pose proof HI as [HD HB]. pose proof HB as (B1 & B2 & B3 & B4 & B5). rewrite Hov in B3, B4. rewrite Hbs in B1, B2, B3, B4.
   cbn beta iota in B1. destruct B1 as [B1a B1b].
-  unfold finish_bs in Hf. destruct fwd.
+  assert (Hsz : negb (r_rmax b =? rmax) = false) by (rewrite Hb; cbn; rewrite Nat.eqb_refl; reflexivity).
+  unfold finish_bs in Hf. rewrite ?Hsz in Hf. cbn [andb] in Hf. destruct fwd.
   - (* forward *)
     destruct (trf s1) as [a|] eqn:Ea.
     + destruct (B3 a eq_refl) as (x & v & Hx & Ha & Hv). inversion Hx; subst x. inversion Hv; subst v.
@@ -287,7 +281,6 @@ Proof.
       * inversion Hf; subst s2 r. split; [apply Hnew; auto|]. repeat split; auto.
   - (* inverse *)
     unfold stage2 in Hf. rewrite Hreg in Hf.
-    assert (Hsz : negb (r_rmax b =? rmax) = false) by (rewrite Hb; cbn; rewrite Nat.eqb_refl; reflexivity).
     rewrite Hsz in Hf. cbn [andb] in Hf.
     (* saving at the end *)
     assert (Hend : forall (s3 : st) (nb3 : bool) (a : acont) (ti : option acont),
@@ -382,10 +375,10 @@ Lemma call_good : forall s c s' r,
   Inv s' /\ r = Ret (expected c).
 Proof.
   intros s c s' r HI Hz Hs.
-  destruct (hazard_parts _ _ Hz) as (Hf & Hreg & Hbad & _ & _).
+  destruct (hazard_parts _ _ Hz) as (Hf & Hreg & Hbad & _).
   unfold step_call in Hs.
   destruct (profiles s c) as [s1 rp] eqn:Ep.
-  destruct (profiles_good _ _ _ _ HI Hz Ep) as (Hrp & HI1 & Hov & Eg & Edk & Hib).
+  destruct (profiles_good _ _ _ _ HI Hz Ep) as (Hrp & HI1 & Hov & Eg & Edk).
   subst rp.
   assert (Hbad1 : uses_bad_dir s1 (c_bd c) = false) by (unfold uses_bad_dir in *; rewrite Eg; exact Hbad).
   destruct (get_bs s1 (c_rmax c) (c_order c) (c_odd c) (c_fwd c) (c_reg c) (c_vid c) (c_bd c) (c_listing c))
@@ -401,9 +394,7 @@ Proof.
   { unfold a. destruct (c_fwd c); cbn [fit_a]; rewrite fit_ideal; reflexivity. }
   rewrite Hfit in Hs.
   destruct (c_geom c) as [gm|] eqn:Egm.
-  - assert (Hused : match ibs s2 with Some i => i | None => gm end = gm).
-    { destruct (ibs s2) as [i|] eqn:Ei; auto; rewrite E2i in Ei; exact (Hib i gm Ei eq_refl). }
-    rewrite Hused in Hs. inversion Hs; subst. split; [apply Inv_set_ibs; exact HI2|].
+  - inversion Hs; subst. split; [apply Inv_set_ibs; exact HI2|].
     unfold expected. fold a. rewrite Egm. reflexivity.
   - inversion Hs; subst. split; [exact HI2|]. unfold expected. fold a. rewrite Egm. reflexivity.
 Qed.
@@ -411,7 +402,7 @@ Qed.
 (* a fresh process *)
 Lemma fresh_expected : forall s c, hazard s (Call c) = false -> fresh (Call c) = Ret (expected c).
 Proof.
-  intros s c Hz. destruct (hazard_parts _ _ Hz) as (Hf & Hreg & Hbad & _ & _).
+  intros s c Hz. destruct (hazard_parts _ _ Hz) as (Hf & Hreg & Hbad & _).
   unfold fresh.
   destruct (step_call init (fresh_call c)) as [s' r] eqn:Es. cbn [snd].
   assert (Hz0 : hazard init (Call (fresh_call c)) = false).
